@@ -23,6 +23,17 @@ def X(who, id, pg=0, as_=None, via=None, sp="bare"):
                                        "target": 0, "payload": 0, "sp": sp, "mod": False, "mev": False, "pg": pg}}
 
 
+def P(kind, who, id, chain=2, target=1, payload=1, mod=True, via=None):
+    """a discarded branch: Simulate / RolledBack of [CreateJob id, ExecuteJob id]"""
+    via = via or ("tx" if who <= 2 else "wasm")
+    return {"act": kind, "args": {"who": who, "as": who, "via": via, "id": id, "chain": chain, "target": target, "payload": payload,
+                                  "sp": "bare", "mod": mod, "mev": False, "pg": 0}}
+
+
+def Q(id):
+    return {"act": "Query", "args": {"who": 0, "as": 0, "via": "", "id": id, "chain": 0, "target": 0, "payload": 0, "sp": "", "mod": False, "mev": False, "pg": 0}}
+
+
 SPELLINGS = ("bare", "0x", "0X", "odd", "upper", "empty")
 
 
@@ -31,8 +42,10 @@ class C17(Pipeline):
     mc = [("Scheduler_mc", "Scheduler_mc", ("quick", "thorough")),
           ("Scheduler_mc", "Scheduler_mc_spell", ("thorough",)),
           ("Scheduler_mc", "Scheduler_mc_full", ("thorough",))]
-    gens = [Gen("SchedulerGen", "SchedulerGen_cover", "bfs", tiers=("quick",), timeout=300, cap=1700),
+    gens = [Gen("SchedulerGen", "SchedulerGen_cover", "bfs", tiers=("quick",), timeout=300, cap=1200),
             Gen("SchedulerGen", "SchedulerGen_cover", "bfs", tiers=("thorough",), timeout=300),
+            Gen("SchedulerGen", "SchedulerGen_ghost_cover", "bfs", tiers=("quick",), timeout=300, cap=350),
+            Gen("SchedulerGen", "SchedulerGen_ghost_cover", "bfs", tiers=("thorough",), timeout=300),
             Gen("SchedulerGen", "SchedulerGen_sim", "simulate", num=200, depth=14, tiers=("quick",), timeout=300),
             Gen("SchedulerGen", "SchedulerGen_sim", "simulate", num=1500, depth=14, tiers=("thorough",), timeout=1200)]
     driver_pkg = "drivers/scheduler"
@@ -46,6 +59,7 @@ class C17(Pipeline):
         "set-up through keepers (harness/env/e2_evm.go, what governance / pigeons do on a live chain): chains eth-main, bnb-main, matic-main added and activated with a compass, op-main added but not activated; every validator has an external account on all four, relayer fees on all but matic-main, a keep-alive and metrix records; validator 0 carries the MEV trait on eth-main only; the valset snapshot with the accounts is current, eth-main still runs on the previous snapshot (so x/evm issues one just-in-time UpdateValset there)",
         "observation of the turnstone queues: messages whose id was not in the queue before the request's block; no pigeon signs or attests, so nothing leaves the queues (a disappearing message is reported by the ExactlyOneCall monitor)",
         "x/scheduler has no activity check on the execution path: a job for the added-but-inactive chain op-main is executed and its call is queued with an empty turnstone id; the model follows the code here, the property text does not cover it",
+        "discarded branches: Simulate runs the really signed two-message transaction [MsgCreateJob id, MsgExecuteJob id] through the application's simulation entry point (BaseApp.Simulate, the gas-estimation path; CheckTx does not execute messages in this SDK), or the contract's two custom messages on a cache context that is dropped; RolledBack delivers [MsgCreateJob id, MsgExecuteJob id, MsgExecuteJob of an unknown id] in a block (the last message always fails); each is followed by an empty block; Query is the keeper's QueryGetJobByID handler on the committed state; the model defines all three as stuttering and every monitor judges against the job store read directly from the committed state",
         "job ids, contract addresses and payloads are drawn from small fixed sets (3 ids + one id failing validation, 2 contract addresses, 2 stored payloads + one caller payload + one non-JSON caller payload); ABI bytes of the job definition are not varied",
         "the hex of a payload document is written in six spellings (bare even-length lower case, 0x prefix, 0X prefix, odd number of digits, upper case digits, empty string), for the stored payload of a job and for the caller's payload of a MsgExecuteJob (the wasm bindings hex-encode raw bytes themselves); what a spelling DENOTES is fixed by go-ethereum's common.FromHex, the decoding x/evm applies on the pinned tree: the driver applies it to the hexPayload string it reads back from the STORED job record and the monitors compare the queued call's payload bytes with that",
     ]
@@ -57,7 +71,14 @@ class C17(Pipeline):
             [C(1, 1, chain=2, sp=sp), C(2, 2, chain=1, payload=2, mod=True, sp=sp), X(1, 1), X(2, 1), X(2, 2), X(1, 2), X(3, 2, pg=1),
              X(3, 2, pg=1, via="legacy")] + [X(1, 2, pg=1, sp=q) for q in SPELLINGS] + [X(2, 1, pg=1, sp=sp), C(3, 3, chain=2, target=2, payload=2, sp=sp), X(3, 3, pg=1), X(1, 3)]
             for sp in SPELLINGS]
-        return sps + [
+        ghosts = [
+            # a job created and run on a branch that is never committed (gas simulation / rolled back delivery / dropped contract
+            # dispatch), then the free id is taken for real by somebody else with another contract and payload: executions and
+            # queries must see the committed job only; perturbations also between creation and execution and naming stored ids
+            [P(kind, a, 1, chain=c), Q(1), C(b, 1, chain=2, target=2, payload=2, mod=True), Q(1), X(a, 1), X(b, 1), X(3, 1, pg=1), X(b, 1, pg=1), P(kind, a, 1, chain=c),
+             X(a, 1), Q(1), P("Simulate", 3, 2), C(a, 2, chain=1, target=2, payload=1), X(3, 2, pg=1), X(b, 2), Q(2), Q(3)]
+            for kind, a, b, c in (("Simulate", 1, 2, 2), ("Simulate", 1, 2, 3), ("RolledBack", 1, 2, 2), ("RolledBack", 2, 3, 3), ("Simulate", 3, 1, 2), ("Simulate", 2, 3, 1))]
+        return sps + ghosts + [
             # modifiable job on the chain with the stale valset: first call brings the valset update, later ones do not
             [C(1, 1, mod=True), C(2, 1, chain=2), X(2, 1), X(2, 1, pg=1), X(3, 1, pg=1), X(3, 1, pg=1, via="legacy"), X(3, 1, pg=0),
              X(1, 1, pg=2), X(1, 2), X(2, 1, as_=1), X(3, 1, pg=1, as_=1), X(1, 1)],
@@ -120,6 +141,27 @@ class C17(Pipeline):
             return "no logic call / no just-in-time valset update observed in any turnstone queue"
         if not {m["sfx"] for m in calls} >= {1, 2, 3} or not {m["body"] for m in calls} >= {0, 1, 2, 100, 101, 102, 1000}:
             return "observed calls do not cover all callers / payloads: %s %s" % ({m["sfx"] for m in calls}, {m["body"] for m in calls})
+        byh = {}
+        for e in events:
+            byh.setdefault(e["h"], []).append(e)
+        reuse = {"Simulate": 0, "RolledBack": 0}
+        for evs in byh.values():
+            ghost = {}                      # id -> (kind, who) of a discarded creation while the id was free
+            real = set()
+            for p, e in zip(evs, evs[1:]):
+                a = e["args"]
+                stored = {j["id"] for j in p["obs"]["jobs"]}
+                if e["act"] in reuse and a["id"] not in stored:
+                    ghost[a["id"]] = (e["act"], a["who"])
+                if e["act"] == "Create" and e["res"] == "ok" and a["id"] in ghost and ghost[a["id"]][1] != a["who"]:
+                    real.add(a["id"])
+                if e["act"] in ("Execute", "Query") and e["res"] in ("ok", "found") and a["id"] in real:
+                    reuse[ghost[a["id"]][0]] += 1
+        self._reuse = reuse
+        if min(reuse.values()) == 0:
+            return "no execution / query of an id that was first created on a discarded branch and then for real by somebody else: %s" % reuse
+        if not any(e["act"] == "Simulate" and e.get("inner") == "sim ok" for e in events):
+            return "no simulated [CreateJob, ExecuteJob] transaction succeeded inside the simulation"
         cov = self.spelling_coverage(events)
         need = {"%s/-" % sp for sp in SPELLINGS} | {"%s/%s" % (a, b) for a in ("bare", "0x") for b in SPELLINGS}
         if not need <= set(cov):
@@ -133,7 +175,7 @@ class C17(Pipeline):
             if e["act"] != "Init":
                 k = "%s/%s:%s" % (e["act"], e["args"]["via"], e.get("res"))
                 vias[k] = vias.get(k, 0) + 1
-        return {"requests_by_path": vias, "executions_by_stored_spelling/caller_spelling": self.spelling_coverage(ev),
+        return {"uses_of_ids_first_created_on_a_discarded_branch": getattr(self, "_reuse", {}), "requests_by_path": vias, "executions_by_stored_spelling/caller_spelling": self.spelling_coverage(ev),
                 "queued_messages_observed": {t: sum(1 for e in ev for m in e["obs"]["added"] if m["type"] == t) for t in ("slc", "valset")}}
 
     validate_chunks = 4
@@ -284,6 +326,31 @@ class C17(Pipeline):
             for m in slc(evs[k7]):
                 m["body"], m["blen"] = 1000, 0
             jobs["dropped_calldata_rejected"] = (evs, lambda v: any(n == "C17.CallIsStoredCall" for n, _, _ in v.monfail))
+        # 8. the job query answering with another owner than the stored one -> JobsImmutable
+        h8, k8 = find(lambda e, pre: e["act"] == "Query" and e["res"] == "found")
+        if h8 is None:
+            r = missing("no successful job query recorded")
+            if r:
+                return r
+        else:
+            evs = copy.deepcopy(byh[h8])
+            evs[k8]["q"]["owner"] = evs[k8]["q"]["owner"] % 3 + 1
+            jobs["stale_query_rejected"] = (evs, lambda v: any(n == "C17.JobsImmutable" for n, _, _ in v.monfail))
+        # 9. a simulated creation that shows up in the store -> DiscardedIsInvisible / IdUnique
+        h9, k9 = find(lambda e, pre: e["act"] == "Simulate" and not any(j["id"] == e["args"]["id"] for j in e["obs"]["jobs"]) and e["args"]["chain"] == 2)
+        if h9 is None:
+            r = missing("no simulation of a free id recorded")
+            if r:
+                return r
+        else:
+            evs = copy.deepcopy(byh[h9])
+            a9 = evs[k9]["args"]
+            ghost = {"id": a9["id"], "idf": a9["id"], "owner": a9["who"], "chain": a9["chain"], "target": a9["target"], "payload": a9["payload"], "sp": "bare",
+                     "den": a9["payload"], "mod": a9["mod"], "mev": False}
+            for x in evs[k9:]:
+                if not any(j["id"] == a9["id"] for j in x["obs"]["jobs"]):
+                    x["obs"]["jobs"] = sorted(x["obs"]["jobs"] + [dict(ghost)], key=lambda j: j["id"])
+            jobs["leaked_simulation_rejected"] = (evs, lambda v: any(n in ("C17.DiscardedIsInvisible", "C17.IdUnique") for n, _, _ in v.monfail))
         if not jobs:
             return {"ok": True, "skipped": skipped}
         t0 = time.time()
